@@ -190,6 +190,24 @@ type fakeListener struct {
 	backlog []net.Conn
 	fail    error
 	closed  bool
+	held    chan struct{} // non-nil: Close blocks until released
+}
+
+func (l *fakeListener) gate() {
+	l.mu.Lock()
+	defer l.mu.Unlock()
+	if l.held == nil {
+		l.held = make(chan struct{})
+	}
+}
+
+func (l *fakeListener) release() {
+	l.mu.Lock()
+	defer l.mu.Unlock()
+	if l.held != nil {
+		close(l.held)
+		l.held = nil
+	}
 }
 
 func newFakeListener(tr *tracer) *fakeListener {
@@ -247,6 +265,12 @@ func (l *fakeListener) Accept() (net.Conn, error) {
 }
 
 func (l *fakeListener) Close() error {
+	l.mu.Lock()
+	h := l.held
+	l.mu.Unlock()
+	if h != nil {
+		<-h // a listener whose Close takes a while
+	}
 	l.mu.Lock()
 	defer l.mu.Unlock()
 	if !l.closed {
